@@ -311,4 +311,63 @@ theorem step_ok (fin : Bool) (c : Cfg) (s : St) (i : Inp) :
   · exact f6
   · intro hc h; rw [f1]; exact hrep hc (by rw [e1]; exact h)
 
+/-! ## Restart-hook outcomes that refuse the restart -/
+
+theorem refuses_not_initiated (a : HookAns) (h : a.refuses = true) : ctxToCode (answerCtx a) ≠ .initiated := by
+  cases a with
+  | ctx x => cases x <;> simp_all [HookAns.refuses, answerCtx, ctxToCode]
+  | _ => simp_all [HookAns.refuses, answerCtx, ctxToCode]
+
+/-- a context that does not allow a restart: `run()` is not called, nothing is counted -/
+theorem launch_refused (s : St) (i : Inp) (x : RCtx) (h : ctxToCode x ≠ .initiated) :
+    (launch s i x).1 = s ∧ (launch s i x).2 ≠ some .initiated := by
+  unfold launch
+  split
+  · rename_i he; exact absurd he h
+  · rename_i code hne; simp only [ne_eq, Option.some.injEq, true_and]
+    intro hc
+    cases hx : ctxToCode x <;> simp_all
+
+/-- `Engine.restart` with a scripted hook module that refuses, no simulated restart, exit other than a failed
+submission: nothing is started, whatever the budget, whether or not the reason is listed -/
+theorem engineRestart_refusing (c : Cfg) (s : St) (i : Inp) (hsim : c.simulator = false)
+    (hm : c.hookModule = .scripted) (hsf : i.reason ≠ .submissionFailed) (hr : i.hook.refuses = true) :
+    (engineRestart c s i).2 ≠ some .initiated ∧ (engineRestart c s i).1.runs = s.runs := by
+  have h1 := launch_refused { s with restarts := s.restarts + 1 } i _ (refuses_not_initiated i.hook hr)
+  unfold engineRestart
+  split
+  · simp
+  · simp only [hsim, Bool.false_and, Bool.false_eq_true, if_false]
+    split
+    · simp only [hm]
+      exact ⟨h1.2, by rw [h1.1]⟩
+    · rw [launch_notMet]; simp
+
+theorem compRestart_refusing (c : Cfg) (s : St) (i : Inp) (hrep : c.repeating = false) (hsim : c.simulator = false)
+    (hm : c.hookModule = .scripted) (hsf : i.reason ≠ .submissionFailed) (hr : i.hook.refuses = true) :
+    (guarded (compRestart false c s i)).2 ≠ .initiated ∧ (guarded (compRestart false c s i)).1.runs = s.runs := by
+  unfold compRestart
+  split
+  · simp [guarded]
+  · simp only [hrep, Bool.false_eq_true, if_false]
+    have := engineRestart_refusing c s i hsim hm hsf hr
+    generalize engineRestart c s i = r at this
+    obtain ⟨a, b⟩ := r
+    cases b <;> simp_all [guarded]
+
+theorem ctrlRestart_refusing (c : Cfg) (s : St) (i : Inp) (hrep : c.repeating = false) (hsim : c.simulator = false)
+    (hm : c.hookModule = .scripted) (hsf : i.reason ≠ .submissionFailed) (hr : i.hook.refuses = true) :
+    (ctrlRestart c s i).2 ≠ .initiated ∧ (ctrlRestart c s i).1.runs = s.runs := by
+  have key := compRestart_refusing c s i hrep hsim hm hsf hr
+  unfold ctrlRestart
+  rw [if_neg hsf]
+  repeat' split
+  all_goals first | exact key | simp
+
+/-- when the hook is asked the exit reason is listed and the budget is not used up -/
+theorem engineAsksHook_spec (c : Cfg) (s : St) (i : Inp) (h : engineAsksHook c s i = true) :
+    i.reason ∈ c.hookOn ∧ i.reason ≠ .submissionFailed ∧ budgetLeft c s = true ∧ c.hookModule = .scripted := by
+  simp only [engineAsksHook, Bool.and_eq_true, decide_eq_true_eq] at h
+  exact ⟨h.1.2, h.1.1.2, h.1.1.1.1, h.2⟩
+
 end St4sd.Restart
